@@ -126,6 +126,7 @@ def run(run):
         run.witness('%s: constraint set satisfiable' % stype, s.check() == z3.sat)
     fam = {'Coriolis': 'velocity dynamics (specific force, gravity, Coriolis)', 'longitude': 'position kinematics', 'gravity': 'velocity dynamics (specific force, gravity, Coriolis)',
            'attitude update': 'attitude kinematics', 'transport': 'attitude kinematics', 'increments': 'velocity dynamics (specific force, gravity, Coriolis)', 'altitude': 'position kinematics'}
+    rep.selfcheck(PROP, [{'check': 'consistency', 'point': pt, 'params': {'type': st}} for st in ('ideal', 'rate', 'increment') for pt in rep.points((3 if run.tier == 'quick' else 20))])
     for ci, (name, spec, stype) in enumerate(CANARIES):
         if stype is None or (run.tier == 'quick' and ci % 2 == 1):
             continue
